@@ -34,20 +34,22 @@
 
    DEVIATIONS / FINDINGS
 
-   F1 (real loom behaviour, a leak reported WRONGLY).  "Messages leaked" is
-      reported for a message that is not in the channel: Sender::send calls
+   F1 (FIXED in the pinned tree by "a message handed back by send() is not held
+      by the channel": Channel::undo_send).  Before the fix "Messages leaked"
+      was reported for a message that is not in the channel: Sender::send calls
       rt::Channel::send (msg_cnt += 1) BEFORE the std send; if the receiver has
       been dropped the std send fails and hands the message back to the caller
-      (Err(SendError(v))), but the runtime count stays incremented and nothing
-      ever decrements it.  send_after_drop_reported: [DChan],
+      (Err(SendError(v))), and the runtime count stayed incremented.  Now the
+      bookkeeping is undone.  send_after_drop_not_reported: [DChan],
         main = [IDropRx 0; ISend 0 5]
       the send returns RDisc (the harness got the value back), the std queue is
-      empty, and the iteration ends with PanicLeak LMsgs 0.  Hence the channel
-      clause is stated as what is true (chan_leak_iff): the report is made iff
-      the RUNTIME count is positive; while the receiver is alive that is
-      "the std queue is not empty" (chan_leak_rx_alive); after the receiver was
-      dropped the queue is empty and the count is the number of sends made
-      since (each of them answered RDisc): chan_leak_rx_dropped.
+      empty, the count is 0 and the iteration ends with IterDone.  The channel
+      clause (chan_leak_iff): the report is made iff the RUNTIME count is
+      positive, and the runtime count IS the length of the std queue, receiver
+      alive or not (chan_leak_queue); after the receiver was dropped the queue
+      is empty, the count is 0 and stays 0, the channel is never reported
+      (chan_leak_rx_dropped).  hleak, the harness-level truth, is therefore
+      stated on the std queue.
    F2 Arcs that are not harness objects.  future::block_on creates an
       Arc<Notify> (the waker) in the same store; the scan covers it.  A waker
       clone that is still registered in an AtomicWaker at the end keeps its
@@ -673,7 +675,11 @@ Ltac lclose_step :=
   | |- lk _ _ (map_others _ _ _ _) => apply lk_map_others_k; [tle_tac|]
   end.
 
-Ltac lclose := cbn [res_exec lp_exec]; repeat lclose_step.
+(* (the two rewrites: the dead first write of a disconnected MSendPost) *)
+Ltac lclose :=
+  cbn [res_exec lp_exec];
+  rewrite ?upd_object_map_others_upd_object_const, ?upd_object_upd_object_const;
+  repeat lclose_step.
 
 Ltac lstep :=
   match goal with
@@ -908,11 +914,15 @@ Definition leak_at (e : exec) (k : nat) : option leak_kind :=
 Definition msgs (e : exec) (h : nat) : nat :=
   match get_chan e h with Some s => ch_cnt s | None => 0 end.
 
-(* the harness-level truth about the k-th declared object *)
+(* the harness-level truth about the k-th declared object: a live handle
+   slot, a message in the std queue, a tracked value not yet dropped.
+   (Before the undo_send fix the channel clause had to be the RUNTIME count
+   [msgs]: a send after the receiver's drop was counted although the std queue
+   was gone, finding F1.) *)
 Definition hleak (p : prog) (e : exec) (k : nat) : option leak_kind :=
   match nth_error (p_decls p) k with
   | Some DArc => if Nat.eqb (live e k) 0 then None else Some LArc
-  | Some DChan => if Nat.eqb (msgs e k) 0 then None else Some LMsgs
+  | Some DChan => match ho_q (get_h e k) with [] => None | _ :: _ => Some LMsgs end
   | Some DTrack => if ho_track (get_h e k) then Some LAlloc else None
   | _ => None
   end.
@@ -988,15 +998,16 @@ Section FinishedRun.
     unfold leak_at. rewrite Ho. cbn [leak_of]. rewrite Hcnt. reflexivity.
   Qed.
 
-  (* A2. channel: reported iff the runtime count is positive; while the receiver
-     is alive that is "the std queue is not empty"; after the receiver was
-     dropped the std queue is empty whatever the count is (finding F1) *)
+  (* A2. channel: reported iff the runtime count is positive, and the runtime
+     count is the length of the std queue, receiver alive or not: a send to a
+     channel whose receiver is gone does not count (Channel::undo_send); once
+     the receiver is gone the count is 0, so such a channel is never reported *)
   Theorem chan_leak_iff h :
     nth_error (p_decls p) h = Some DChan ->
     exists s, nth_error (e_objects e) h = Some (OChannel s) /\ msgs e h = ch_cnt s /\
               leak_at e h = (if Nat.eqb (msgs e h) 0 then None else Some LMsgs) /\
-              (if ho_rx (get_h e h) then msgs e h = length (ho_q (get_h e h))
-               else ho_q (get_h e h) = []).
+              msgs e h = length (ho_q (get_h e h)) /\
+              (ho_rx (get_h e h) = false -> msgs e h = 0).
   Proof.
     intros Hd. destruct (end_decl_object h DChan Hd) as (o0 & o & Hc & Ho & Hle).
     cbn [create_object] in Hc. injection Hc as <-.
@@ -1004,28 +1015,35 @@ Section FinishedRun.
     assert (Hk : h < length (e_h e)).
     { rewrite end_h_length. apply nth_error_Some. congruence. }
     pose proof (get_chan_of_nth _ _ _ Ho) as Hg.
-    destruct (end_chan_inv h s Hk Hg) as [_ Hq].
+    destruct (chan_inv_queue_length e h s end_chan_inv Hk Hg) as (_ & Hq & Hz).
     assert (Hm : msgs e h = ch_cnt s) by (unfold msgs; rewrite Hg; reflexivity).
     split; [exact Ho|]. split; [exact Hm|]. split.
     - unfold leak_at. rewrite Ho, Hm. reflexivity.
-    - rewrite Hm. destruct (ho_rx (get_h e h)); [symmetry; exact Hq|exact Hq].
+    - rewrite Hm. split; [symmetry; exact Hq|exact Hz].
+  Qed.
+
+  (* the scan against the std queue, receiver alive or not *)
+  Corollary chan_leak_queue h :
+    nth_error (p_decls p) h = Some DChan ->
+    leak_at e h = (match ho_q (get_h e h) with [] => None | _ :: _ => Some LMsgs end).
+  Proof.
+    intros Hd. destruct (chan_leak_iff h Hd) as (s & _ & _ & Hl & Hq & _).
+    rewrite Hl, Hq. destruct (ho_q (get_h e h)); reflexivity.
   Qed.
 
   Corollary chan_leak_rx_alive h :
     nth_error (p_decls p) h = Some DChan -> ho_rx (get_h e h) = true ->
     leak_at e h = (match ho_q (get_h e h) with [] => None | _ :: _ => Some LMsgs end).
-  Proof.
-    intros Hd Hrx. destruct (chan_leak_iff h Hd) as (s & _ & _ & Hl & Hq).
-    rewrite Hrx in Hq. rewrite Hl, Hq. destruct (ho_q (get_h e h)); reflexivity.
-  Qed.
+  Proof. intros Hd _. apply chan_leak_queue, Hd. Qed.
 
+  (* a channel whose receiver has been dropped holds nothing and is not reported *)
   Corollary chan_leak_rx_dropped h :
     nth_error (p_decls p) h = Some DChan -> ho_rx (get_h e h) = false ->
-    ho_q (get_h e h) = [] /\
-    leak_at e h = (if Nat.eqb (msgs e h) 0 then None else Some LMsgs).
+    ho_q (get_h e h) = [] /\ msgs e h = 0 /\ leak_at e h = None.
   Proof.
-    intros Hd Hrx. destruct (chan_leak_iff h Hd) as (s & _ & _ & Hl & Hq).
-    rewrite Hrx in Hq. auto.
+    intros Hd Hrx. destruct (chan_leak_iff h Hd) as (s & _ & _ & Hl & Hq & Hz).
+    specialize (Hz Hrx). rewrite Hz in Hq, Hl. split; [|split; [exact Hz|exact Hl]].
+    destruct (ho_q (get_h e h)); [reflexivity|discriminate Hq].
   Qed.
 
   (* A3. Track: reported iff the tracked value was never dropped *)
@@ -1063,7 +1081,7 @@ Section FinishedRun.
     destruct (nth_error (p_decls p) k) as [d|] eqn:Hd; [|apply nth_error_None in Hd; lia].
     destruct d;
       try (apply (other_decl_never_leaks k _ Hd); discriminate).
-    - destruct (chan_leak_iff k Hd) as (s & _ & _ & Hl & _). exact Hl.
+    - apply (chan_leak_queue k Hd).
     - destruct (arc_leak_iff k Hdisc Hd) as (s & _ & _ & _ & Hl). exact Hl.
     - destruct (track_leak_iff k Hd) as [_ Hl]. exact Hl.
   Qed.
@@ -1119,7 +1137,7 @@ Section FinishedRun.
   Theorem no_leak_passes :
     run_disc fuel (init_exec p pa) = true ->
     (forall k, nth_error (p_decls p) k = Some DArc -> live e k = 0) ->
-    (forall h, nth_error (p_decls p) h = Some DChan -> msgs e h = 0) ->
+    (forall h, nth_error (p_decls p) h = Some DChan -> ho_q (get_h e h) = []) ->
     (forall k, nth_error (p_decls p) k = Some DTrack -> ho_track (get_h e k) = false) ->
     dyn_arcs_released p e ->
     iteration fuel p pa = (e, IterDone).
@@ -1132,13 +1150,13 @@ Section FinishedRun.
     - rewrite (Ht k Hd). reflexivity.
   Qed.
 
-  (* with the receiver alive "no message held" is "the std queue is empty" *)
+  (* "no message held" (runtime count) is "the std queue is empty" *)
   Lemma msgs_zero_of_empty_queue h :
-    nth_error (p_decls p) h = Some DChan -> ho_rx (get_h e h) = true ->
+    nth_error (p_decls p) h = Some DChan ->
     ho_q (get_h e h) = [] -> msgs e h = 0.
   Proof.
-    intros Hd Hrx Hq. destruct (chan_leak_iff h Hd) as (s & _ & _ & _ & Hx).
-    rewrite Hrx, Hq in Hx. exact Hx.
+    intros Hd Hq. destruct (chan_leak_iff h Hd) as (s & _ & _ & _ & Hx & _).
+    rewrite Hq in Hx. exact Hx.
   Qed.
 
   (* a reported leak is true, and it is the first one in index order *)
@@ -1215,14 +1233,17 @@ Example three_leaks_first_reported :
   run_disc 1000 (init_exec p_three (initial_path cfgK)) = true.
 Proof. vm_compute. repeat split; reflexivity. Qed.
 
-(* F1: "Messages leaked" for a message that was handed back to the sender *)
+(* F1 (fixed): a message that was handed back to the sender is NOT reported.
+   Before the undo_send fix this iteration ended with PanicLeak LMsgs 0 and
+   msgs = 1 (witness then: send_after_drop_reported). *)
 Definition p_send_after_drop : prog := mkProg cfgK [DChan] [[IDropRx 0; ISend 0 5]].
 Definition e_sad : exec := fst (iteration 1000 p_send_after_drop (initial_path cfgK)).
 
-Lemma send_after_drop_reported :
-  snd (iteration 1000 p_send_after_drop (initial_path cfgK)) = IterPanic (PanicLeak LMsgs 0) /\
+Lemma send_after_drop_not_reported :
+  snd (iteration 1000 p_send_after_drop (initial_path cfgK)) = IterDone /\
   rev (e_log e_sad) = [LOp 0 0 RUnit; LOp 0 1 RDisc] /\
-  ho_rx (get_h e_sad 0) = false /\ ho_q (get_h e_sad 0) = [] /\ msgs e_sad 0 = 1.
+  ho_rx (get_h e_sad 0) = false /\ ho_q (get_h e_sad 0) = [] /\ msgs e_sad 0 = 0 /\
+  hleak p_send_after_drop e_sad 0 = None.
 Proof. vm_compute. repeat split; reflexivity. Qed.
 
 (* F2: the waker of block_on left in the AtomicWaker.  main polls (value 0),
@@ -1251,6 +1272,7 @@ Print Assumptions run_LI.
 Print Assumptions run_done_quiet.
 Print Assumptions arc_leak_iff.
 Print Assumptions chan_leak_iff.
+Print Assumptions chan_leak_queue.
 Print Assumptions chan_leak_rx_alive.
 Print Assumptions chan_leak_rx_dropped.
 Print Assumptions track_leak_iff.
@@ -1260,7 +1282,7 @@ Print Assumptions iteration_done_iff.
 Print Assumptions no_leak_passes.
 Print Assumptions leak_reported_is_true.
 Print Assumptions true_leak_is_reported.
-Print Assumptions send_after_drop_reported.
+Print Assumptions send_after_drop_not_reported.
 Print Assumptions waker_left_registered_reported.
 
 (* ================================================================== *)
@@ -1603,7 +1625,11 @@ Ltac bclose_step :=
   | |- bk _ (map_others _ _ _ _) => apply bk_map_others_k; [keepc_tac|]
   end.
 
-Ltac bclose := cbn [res_exec lp_exec]; repeat bclose_step.
+(* (the two rewrites: the dead first write of a disconnected MSendPost) *)
+Ltac bclose :=
+  cbn [res_exec lp_exec];
+  rewrite ?upd_object_map_others_upd_object_const, ?upd_object_upd_object_const;
+  repeat bclose_step.
 
 Ltac bstep :=
   match goal with
